@@ -41,17 +41,30 @@ def CRASH(mode, focus, q, t, steps=2, shards_q=4, big=False, nops=8):
     return {"cmd": "crash", "args": args, "cases": {"quick": max(1, q // shards_q), "thorough": max(1, t // 16)}, "shards": {"quick": shards_q, "thorough": 16}, "per_shard_cases": True}
 
 PROPS = {
+    "C07": {
+        "runs": [
+            {"cmd": "core-mp", "mode": "core", "cases": {"quick": 800, "thorough": 30000}, "shards": {"quick": 8, "thorough": 16}},
+            {"cmd": "core-mp-corpus", "mode": "core", "cases": {"quick": 1, "thorough": 1}, "corpus": True},
+        ],
+        "rule": "cases = random key sets (0..60 keys, clustered prefixes) x a random non-empty set of 1..20 query keys: honest path proofs (sorted by terminal path, identical terminals merged) -> real MultiProof::from_path_proofs -> verify_multi_proof -> find_index_for / confirm_value / confirm_nonexistence / ..._with_index on query keys, keys around every terminal and random keys -> 2 honest in-scope write sets through verify_multi_proof_update, each compared with (a) the Lean mirror line by line, (b) the key-value set, (c) the single-path verifier on the same key / write set, (d) the reference root of the updated set; then 6 mutated multi-proof objects per case (depth +-1 / 256 / 257 / 300 / 2^20 / below the bisection depth / = path length, terminator shorter or longer than its depth, dropped / added / truncated / trailing / flipped / zeroed / swapped siblings, swapped / duplicated / removed / truncated paths, prefix-related terminals replaced or inserted, neighbour sharing the whole prefix, terminal kind / key / value changes, empty proof with and without siblings, wrong root; 1 in 4 doubly mutated), each verified against the true root and, if rejected, against the root it hashes to itself (harness-side, panic-free), accepted ones followed by confirm queries and honest + malformed write sets (swapped, duplicated, random, out-of-scope-but-sorted, reversed, empty); plus malformed from_path_proofs input (duplicate, unordered pair, prefix pair). Every call under catch_unwind. non-trivial & distinct = distinct mutated-object or update lines (hash of the protocol line).",
+        "trusted_base": HASH_TB + ["Debug rendering of VerifiedMultiProof is used to read its private depth / sibling-range fields"],
+        "assumptions": ["unproved in Lean, held by this run only: completeness of find_index_for, correctness / panic-freedom of verify_multi_proof_update on accepted proofs, completeness of from_path_proofs; the `aligned` token printed by the driver re-checks theorem T7.1 at run time on every accepted object",
+                        "from_path_proofs is only fed unordered input of length 2 (longer unordered input can make the real loop spin exponentially long)"],
+    },
     "C08": {
         "runs": [
             {"cmd": "core-pp", "mode": "core", "cases": {"quick": 1200, "thorough": 40000}, "shards": {"quick": 8, "thorough": 16}},
+            {"cmd": "core-mp", "mode": "core", "cases": {"quick": 800, "thorough": 30000}, "shards": {"quick": 8, "thorough": 16}},
         ],
         "rule": "cases = random key sets (0..60 keys, clustered prefixes at page/byte boundaries and depth 246..255) x 4 query keys x (honest proof + 3 mutants: sibling flip/drop/add/swap/zero/truncate, terminal key/value/kind, wrong root, other key, short key slice, >256 siblings) with confirm_value/confirm_nonexistence queries against the truth set, plus 3 verify_update cases per set (honest and 7 malformed shapes). non-trivial & distinct = distinct mutated-proof or update lines (hash of the protocol line).",
         "trusted_base": HASH_TB,
-        "assumptions": ["multi-proof soundness (T8.2) is covered by the C07/C18 multi-proof differential until its theorem lands"],
+        "assumptions": ["multi-proof soundness is theorem Nomt.C07.T8_2_multi_proof_sound (Props/C07.lean); the multi-proof stream of C07 runs here as well"],
     },
     "C18": {
         "runs": [
             {"cmd": "core-pp", "mode": "core", "cases": {"quick": 1200, "thorough": 40000}, "shards": {"quick": 8, "thorough": 16}},
+            {"cmd": "core-mp", "mode": "core", "cases": {"quick": 800, "thorough": 30000}, "shards": {"quick": 8, "thorough": 16}},
+            {"cmd": "core-mp-corpus", "mode": "core", "cases": {"quick": 1, "thorough": 1}, "corpus": True},
         ],
         "rule": "same adversarial stream as C08, every call under catch_unwind; the model must predict ok / which error / panic for every line. non-trivial = mutated or malformed object.",
         "trusted_base": HASH_TB,
